@@ -712,6 +712,11 @@ class Evaluator:
             env2 = dict(env)
             env2[e[1]] = a
             return self.ev(e[2], ctx, env2)
+        if k == "thennone":
+            self.ev(e[1], ctx, env)
+            return None
+        if k == "isnone":
+            return 1 if self.ev(e[1], ctx, env) is None else 0
         if k == "fail":
             kind = self.m.armed.get(e[1])
             if kind and kind != "None":
